@@ -266,6 +266,10 @@ def r2_accumulate_on_scatter(ctx, rid):
                     aug = ast.Add()
                 else:
                     continue
+                # a transposed / reshaped view of the array (`a.T[j, i] += w`) stores into the same array
+                if isinstance(tgt, ast.Subscript) and isinstance(tgt.value, ast.Attribute) and tgt.value.attr in ("T", "mT", "flat") \
+                        and isinstance(tgt.value.value, ast.Name):
+                    tgt = ast.Subscript(value=tgt.value.value, slice=tgt.slice, ctx=ast.Store())
                 if not (isinstance(tgt, ast.Subscript) and isinstance(tgt.value, ast.Name)):
                     continue
                 arr = tgt.value.id
@@ -1159,6 +1163,14 @@ def r7_source_registration_accumulates(ctx, rid):
 
 
 # ================================================================================================
+
+def r_str_membership(ctx, rid):
+    """The argument lists handed to generated functions are filtered by membership in collections, never in strings
+    (shared lint, see _strmember_lint): a substring test silently drops arguments whose name is a substring of e.g. 'dy'."""
+    from ._strmember_lint import membership_in_string
+    membership_in_string(ctx, rid)
+
+
 RULES = [
     ("C01-R1", r1_loop_variable_discipline, 40),
     ("C01-R2", r2_accumulate_on_scatter, 1),
@@ -1166,6 +1178,7 @@ RULES = [
     ("C01-R4", r4_fresh_name_generator, 6),
     ("C01-R6", r6_names_and_values_from_one_iteration, 6),
     ("C01-R7", r7_source_registration_accumulates, 3),
+    ("C01-R8", r_str_membership, 1),
 ]
 
 # C01-R5 (state layout: one distinct extent per state variable, same layout in to_func / get_jacobian_func /
